@@ -1,9 +1,12 @@
 (* C18 -- Encoders and decoders are mutually inverse and agree with reference codecs.
    Statements only; every proof is `exact <lemma>` into MsgTheory.v, C18_layouts.v,
-   C18_per_proofs.v, C18_der_proofs.v, C18_gcc_proofs.v. *)
+   C18_per_proofs.v, C18_der_proofs.v, C18_gcc_proofs.v (decode after encode) and
+   C18_inv_per.v, C18_inv_der.v, C18_inv_msg.v, C18_inv_layouts.v, C18_inv_gcc.v (encode after
+   decode; definitions in Canon.v, reference decoders in RefPerDec.v). *)
 From RdpV Require Import Base Msg MsgTheory LayoutsGlobal C18_layouts Per RefPer C18_per_proofs
   Der C18_der_proofs C18_der_examples Gcc RefGcc C18_gcc_proofs.
 From RdpV Require Global C18_per_global.
+From RdpV Require Import LayoutsConnect LayoutsNtlm RefPerDec C18_inv_base C18_inv_per C18_inv_der C18_inv_msg C18_inv_layouts C18_inv_gcc.
 Open Scope list_scope.
 Open Scope N_scope.
 
@@ -25,8 +28,8 @@ Print Assumptions C18_write_defined_iff_length.
 
 (* For EVERY pair (empty template t, message m) accepted by the executable predicate [wf]
    (same shape; 16/32-bit leaves within their width; an unsized Vec<u8> / an Array / an absent
-   trailing Option only where nothing follows in the reader -- last field of a bounded reader or
-   inside a sized sub-cursor; sizes announced by Size closures equal to the sized field's
+   trailing Option only where nothing follows in the reader -- last field of a bounded reader, inside
+   a sized sub-cursor, or followed only by fields that write nothing (consecutive absent Options); sizes announced by Size closures equal to the sized field's
    length(); fields skipped by a SkipField closure carry the template's value; Check values equal
    to their constants; array elements self-delimiting, non-empty, the element template failing
    cleanly at end of input), every trailing [rest] (empty when the message relies on a bounded
@@ -363,47 +366,47 @@ Print Assumptions C18_gcc_request_ref.
    any version, requested protocols / capability flags present or not, any node id, tag, result --
    is read back to exactly the channel ids and the version *)
 Theorem C18_gcc_response_roundtrip :
-  forall p node_id tag result version requested flags method level ids b,
-    Forall (fun i => i < 65536) ids ->
+  forall p node_id tag result version requested flags method level io ids b,
+    io < 65536 -> Forall (fun i => i < 65536) ids ->
     version < 4294967296 -> opt_lt requested 4294967296 -> opt_lt flags 4294967296 ->
     method < 4294967296 -> level < 4294967296 ->
     1001 <= node_id -> node_id <= 65535 -> tag < 4294967296 -> result < 256 -> nlen ids < 16000 ->
     ref_conference_create_response node_id tag result
-      (ref_sc_core version requested flags ++ ref_sc_security method level ++ ref_sc_net ids) = Some b ->
-    gcc_read_conference_create_response p b = Ok (ids, version_from version).
+      (ref_sc_core version requested flags ++ ref_sc_security method level ++ ref_sc_net io ids) = Some b ->
+    gcc_read_conference_create_response p b = Ok (io, ids, version_from version).
 Proof. exact gcc_response_roundtrip. Qed.
 Print Assumptions C18_gcc_response_roundtrip.
 
 (* ... and the reference encoder is defined on all of that domain (the theorem above is not vacuous) *)
 Theorem C18_gcc_response_defined :
-  forall node_id tag result version requested flags method level ids,
+  forall node_id tag result version requested flags method level io ids,
     1001 <= node_id -> node_id <= 65535 -> tag < 4294967296 -> result < 256 -> nlen ids < 16000 ->
     exists b, ref_conference_create_response node_id tag result
-                (ref_sc_core version requested flags ++ ref_sc_security method level ++ ref_sc_net ids) = Some b.
+                (ref_sc_core version requested flags ++ ref_sc_security method level ++ ref_sc_net io ids) = Some b.
 Proof. exact gcc_response_defined. Qed.
 Print Assumptions C18_gcc_response_defined.
 
 (* the three blocks in any order, and with any blocks of unknown type interleaved *)
 Theorem C18_gcc_response_any_order :
-  forall p node_id tag result version requested flags method level ids bl b,
-    Forall (fun i => i < 65536) ids ->
+  forall p node_id tag result version requested flags method level io ids bl b,
+    io < 65536 -> Forall (fun i => i < 65536) ids ->
     version < 4294967296 -> opt_lt requested 4294967296 -> opt_lt flags 4294967296 ->
     method < 4294967296 -> level < 4294967296 -> node_id <= 65535 ->
-    In bl (orders3 (BCore version requested flags) (BSecurity method level) (BNet ids)) ->
+    In bl (orders3 (BCore version requested flags) (BSecurity method level) (BNet io ids)) ->
     ref_conference_create_response node_id tag result (enc_blocks bl) = Some b ->
-    gcc_read_conference_create_response p b = Ok (ids, version_from version).
+    gcc_read_conference_create_response p b = Ok (io, ids, version_from version).
 Proof. exact gcc_response_any_order. Qed.
 Print Assumptions C18_gcc_response_any_order.
 
 Theorem C18_gcc_response_unknown_blocks :
-  forall p node_id tag result version requested flags method level ids u0 u1 u2 u3 b,
-    Forall (fun i => i < 65536) ids ->
+  forall p node_id tag result version requested flags method level io ids u0 u1 u2 u3 b,
+    io < 65536 -> Forall (fun i => i < 65536) ids ->
     version < 4294967296 -> opt_lt requested 4294967296 -> opt_lt flags 4294967296 ->
     method < 4294967296 -> level < 4294967296 -> node_id <= 65535 ->
     Forall is_other u0 -> Forall is_other u1 -> Forall is_other u2 -> Forall is_other u3 ->
     ref_conference_create_response node_id tag result
-      (enc_blocks (u0 ++ [BCore version requested flags] ++ u1 ++ [BSecurity method level] ++ u2 ++ [BNet ids] ++ u3)) = Some b ->
-    gcc_read_conference_create_response p b = Ok (ids, version_from version).
+      (enc_blocks (u0 ++ [BCore version requested flags] ++ u1 ++ [BSecurity method level] ++ u2 ++ [BNet io ids] ++ u3)) = Some b ->
+    gcc_read_conference_create_response p b = Ok (io, ids, version_from version).
 Proof. exact gcc_response_unknown_blocks. Qed.
 Print Assumptions C18_gcc_response_unknown_blocks.
 
@@ -420,15 +423,15 @@ Proof. exact client_core_data_roundtrip. Qed.
 Print Assumptions C18_gcc_client_core_data.
 
 Theorem C18_gcc_server_network_data :
-  forall p ids, Forall (fun i => i < 65536) ids -> nlen ids < 65536 ->
-    block_roundtrip p false server_network_data (net_msg ids).
+  forall p io ids, io < 65536 -> Forall (fun i => i < 65536) ids -> nlen ids < 65536 ->
+    block_roundtrip p false server_network_data (net_msg io ids).
 Proof. exact server_network_data_roundtrip. Qed.
 Print Assumptions C18_gcc_server_network_data.
 
 (* non-vacuity: a concrete RDP5+ response with three channels decodes, in both profiles *)
 Theorem C18_gcc_nonvacuous :
-  gcc_read_conference_create_response Debug ex_response = Ok ([1004; 1005; 1006], RdpVersion5plus)
-  /\ gcc_read_conference_create_response Release ex_response = Ok ([1004; 1005; 1006], RdpVersion5plus).
+  gcc_read_conference_create_response Debug ex_response = Ok (1003, [1004; 1005; 1006], RdpVersion5plus)
+  /\ gcc_read_conference_create_response Release ex_response = Ok (1003, [1004; 1005; 1006], RdpVersion5plus).
 Proof. exact gcc_response_example. Qed.
 Print Assumptions C18_gcc_nonvacuous.
 
@@ -443,3 +446,299 @@ Proof.
           (conj C18_per_global.global_per_write_length_agrees C18_per_global.global_per_read_integer_16_agrees)).
 Qed.
 Print Assumptions C18_per_session_model_agrees.
+
+(* ===================================================================================================== *)
+(* ============================== THE OTHER DIRECTION: encode after decode ============================= *)
+(* ===================================================================================================== *)
+(* Everywhere below [all_bytes bs] says that the input is made of octets (the model's byte strings are
+   lists of N).  "Canonical" is a decidable condition on the INPUT BYTES, stated per reader; a reader
+   accepting a non-canonical input is a leniency (observation), not a violation of C18. *)
+
+(* ---------------------------------------------------------------- PER *)
+(* length determinant: the reader accepts the one-octet form and the two-octet form; the writer gives
+   the input back exactly when the two-octet form was used for a value >= 128 (canon_length) -- and
+   ONLY then: `80 05` is read as 5 and written back as `05`. *)
+Theorem C18_inv_per_length :
+  forall bs n rest, all_bytes bs = true -> per_read_length bs = Ok (n, rest) ->
+    n < 32768 /\ (per_write_length n ++ rest = bs <-> canon_length bs = true).
+Proof. exact per_length_inverse. Qed.
+Print Assumptions C18_inv_per_length.
+
+(* integer: canonical = one-octet length 1, 2 or 4 and the smallest of those size classes *)
+Theorem C18_inv_per_integer :
+  forall bs n rest, all_bytes bs = true -> per_read_integer bs = Ok (n, rest) ->
+    n < 4294967296 /\ (per_write_integer n ++ rest = bs <-> canon_integer bs = true).
+Proof. exact per_integer_inverse. Qed.
+Print Assumptions C18_inv_per_integer.
+
+(* integer_16 and the one-octet primitives: every accepted input is canonical *)
+Theorem C18_inv_per_integer_16 :
+  forall p m bs v rest, all_bytes bs = true -> per_read_integer_16 m bs = Ok (v, rest) ->
+    v < 65536 /\ exists b, per_write_integer_16 p v m = Ok b /\ b ++ rest = bs.
+Proof. exact per_integer_16_inverse. Qed.
+Print Assumptions C18_inv_per_integer_16.
+
+Theorem C18_inv_per_one_octet :
+  forall bs c rest, rd_u8 bs = Ok (c, rest) -> [c] ++ rest = bs.
+Proof. exact per_one_octet_inverse. Qed.
+Print Assumptions C18_inv_per_one_octet.
+
+(* object identifier (the reader compares with an expected identifier): when it answers `true`, the
+   writer reproduces the input iff one-octet length 5, first octet < 120, the other arcs < 128 *)
+Theorem C18_inv_per_oid :
+  forall oid bs rest, all_bytes bs = true -> per_read_object_identifier oid bs = Ok (true, rest) ->
+    ((exists b, per_write_object_identifier oid = Ok b /\ b ++ rest = bs) <-> canon_oid bs = true).
+Proof. exact per_oid_inverse. Qed.
+Print Assumptions C18_inv_per_oid.
+
+(* octet stream (compared with an expected string): canonical = canonical length determinant *)
+Theorem C18_inv_per_octet_stream :
+  forall p s m bs rest, all_bytes bs = true -> m < min_bound -> per_read_octet_stream p s m bs = Ok (tt, rest) ->
+    (per_write_octet_stream s m ++ rest = bs <-> canon_length bs = true).
+Proof. exact per_octet_stream_inverse. Qed.
+Print Assumptions C18_inv_per_octet_stream.
+
+(* numeric string: canonical = canonical length, every nibble used a digit value, zero pad nibble *)
+Theorem C18_inv_per_numeric_string :
+  forall p m bs s rest, all_bytes bs = true -> m < min_bound -> per_read_numeric_string p m bs = Ok (s, rest) ->
+    ((exists b, per_write_numeric_string p s m = Ok b /\ b ++ rest = bs) <-> canon_numeric m bs = true).
+Proof. exact per_numeric_string_inverse. Qed.
+Print Assumptions C18_inv_per_numeric_string.
+
+(* padding: canonical = enough octets, all zero *)
+Theorem C18_inv_per_padding :
+  forall n bs rest, per_read_padding n bs = Ok (tt, rest) ->
+    ((exists b, per_write_padding n = Ok b /\ b ++ rest = bs) <-> canon_padding n bs = true).
+Proof. exact per_padding_inverse. Qed.
+Print Assumptions C18_inv_per_padding.
+
+(* the readers agree with the reference DECODERS (RefPer.v / RefPerDec.v, from X.691 / X.690): length,
+   integer and integer_16 accept exactly what the reference accepts, with the same value; octet and
+   numeric strings and object identifiers (inside the codec's 6-arc domain) are accepted with the
+   reference's value wherever the reference accepts *)
+Theorem C18_per_readers_agree_with_reference :
+  (forall bs, all_bytes bs = true ->
+     per_read_length bs = match ref_dec_length bs with Some x => Ok x | None => Err EIo end) /\
+  (forall bs x, all_bytes bs = true -> (per_read_integer bs = Ok x <-> ref_dec_integer bs = Some x)) /\
+  (forall m bs x, per_read_integer_16 m bs = Ok x <-> ref_dec_integer_16 m bs = Some x) /\
+  (forall p m bs s rest, all_bytes bs = true -> m < min_bound ->
+     ref_dec_octet_string m bs = Some (s, rest) -> per_read_octet_stream p s m bs = Ok (tt, rest)) /\
+  (forall p m bs s rest, all_bytes bs = true -> m < min_bound ->
+     ref_dec_numeric_string m bs = Some (s, rest) -> per_read_numeric_string p m bs = Ok (s, rest)) /\
+  (forall bs arcs rest oid', all_bytes bs = true -> ref_dec_oid bs = Some (arcs, rest) ->
+     oid_in_domain arcs = true -> nlen oid' = 6 ->
+     per_read_object_identifier oid' bs = Ok (oid_eqb arcs oid', rest)).
+Proof.
+  exact (conj per_length_ref_dec (conj per_integer_ref_dec (conj per_integer_16_ref_dec
+          (conj per_octet_stream_ref_dec (conj per_numeric_string_ref_dec per_oid_ref_dec))))).
+Qed.
+Print Assumptions C18_per_readers_agree_with_reference.
+
+(* ... and the reference decoders are the inverses of the reference encoders of RefPer.v *)
+Theorem C18_per_reference_decoders_invert_encoders :
+  (forall n b rest, ref_length n = Some b -> ref_dec_length (b ++ rest) = Some (n, rest)) /\
+  (forall n b rest, ref_integer n = Some b -> ref_dec_integer (b ++ rest) = Some (n, rest)) /\
+  (forall lower v b rest, ref_integer_16 lower v = Some b -> ref_dec_integer_16 lower (b ++ rest) = Some (v, rest)) /\
+  (forall lower s b rest, ref_octet_string lower s = Some b -> ref_dec_octet_string lower (b ++ rest) = Some (s, rest)) /\
+  (forall lower s b rest, ref_numeric_string lower s = Some b -> ref_dec_numeric_string lower (b ++ rest) = Some (s, rest)) /\
+  (forall arcs b rest, Forall (fun a => a < 16384) (skipn 2 arcs) -> ref_oid arcs = Some b ->
+     ref_dec_oid (b ++ rest) = Some (arcs, rest)).
+Proof.
+  exact (conj ref_length_roundtrip (conj ref_integer_dec (conj ref_integer_16_dec
+          (conj ref_octet_string_dec (conj ref_numeric_string_dec ref_oid_dec))))).
+Qed.
+Print Assumptions C18_per_reference_decoders_invert_encoders.
+
+(* non-vacuity: canonical inputs reproduced, and one exhibit of EVERY leniency (accepted, not canonical) *)
+Theorem C18_inv_per_nonvacuous :
+  (per_read_length [129; 16; 170] = Ok (272, [170]) /\ canon_length [129; 16; 170] = true /\ per_write_length 272 = [129; 16]) /\
+  (per_read_integer [2; 1; 0; 170] = Ok (256, [170]) /\ canon_integer [2; 1; 0; 170] = true /\ per_write_integer 256 = [2; 1; 0]) /\
+  (per_read_numeric_string Debug 1 [1; 18; 170] = Ok ([49; 50], [170]) /\ canon_numeric 1 [1; 18; 170] = true /\
+   per_write_numeric_string Debug [49; 50] 1 = Ok [1; 18]) /\
+  (per_read_length [128; 5; 170] = Ok (5, [170]) /\ canon_length [128; 5; 170] = false /\ per_write_length 5 = [5]) /\
+  (per_read_integer [2; 0; 5] = Ok (5, []) /\ canon_integer [2; 0; 5] = false /\ per_write_integer 5 = [1; 5]) /\
+  (per_read_integer [4; 0; 0; 1; 0] = Ok (256, []) /\ canon_integer [4; 0; 0; 1; 0] = false) /\
+  (per_read_integer [128; 1; 5] = Ok (5, []) /\ canon_integer [128; 1; 5] = false) /\
+  (per_read_object_identifier [0; 0; 20; 124; 0; 1] [128; 5; 0; 20; 124; 0; 1] = Ok (true, []) /\
+   canon_oid [128; 5; 0; 20; 124; 0; 1] = false /\ canon_oid [5; 0; 20; 124; 0; 1] = true) /\
+  (per_read_numeric_string Debug 0 [1; 31] = Ok ([49], []) /\ canon_numeric 0 [1; 31] = false /\
+   per_write_numeric_string Debug [49] 0 = Ok [1; 16]) /\
+  (per_read_numeric_string Debug 0 [2; 171] = Ok ([58; 59], []) /\ canon_numeric 0 [2; 171] = false /\
+   per_write_numeric_string Debug [58; 59] 0 = Ok [2; 1]) /\
+  (per_read_padding 2 [7] = Ok (tt, []) /\ canon_padding 2 [7] = false /\ canon_padding 2 [0; 0; 9] = true).
+Proof. exact per_inverse_examples. Qed.
+Print Assumptions C18_inv_per_nonvacuous.
+
+(* ---------------------------------------------------------------- DER *)
+(* The model's decoder is strict (as yasna's from_der is on the shapes used): for EVERY schema and EVERY
+   octet string, whatever it accepts is exactly the encoder's output for the value it returns -- no side
+   condition; together with C18_der_roundtrip, encode and decode are mutually inverse bijections between
+   the values of a schema and the set of accepted inputs. *)
+Theorem C18_inv_der :
+  forall s b v rest, all_bytes b = true -> der_decode s b = Some (v, rest) -> der_encode v ++ rest = b.
+Proof. exact der_decode_inverse. Qed.
+Print Assumptions C18_inv_der.
+
+(* below the TLV level: only minimal identifiers, definite lengths and INTEGER contents decode *)
+Theorem C18_inv_der_primitives :
+  (forall b c k t rest, dec_ident b = Some ((c, k, t), rest) -> enc_ident c k t ++ rest = b) /\
+  (forall b n rest, all_bytes b = true -> dec_len b = Some (n, rest) -> enc_len n ++ rest = b) /\
+  (forall b n, all_bytes b = true -> dec_int b = Some n -> enc_int n = b).
+Proof. exact (conj dec_ident_inverse (conj dec_len_inverse dec_int_inverse)). Qed.
+Print Assumptions C18_inv_der_primitives.
+
+(* a LENIENT reader (yasna's from_ber, used for the MCS connect response): the value it returns
+   re-encodes to its input exactly when the strict decoder accepts that input with that value *)
+Theorem C18_inv_der_reencode_iff_strict :
+  forall s b v, all_bytes b = true -> dwf v = true -> conforms s v = true ->
+    (der_encode v = b <-> der_decode_all s b = Some v).
+Proof. exact der_reencode_iff_strict. Qed.
+Print Assumptions C18_inv_der_reencode_iff_strict.
+
+Theorem C18_inv_der_nonvacuous :
+  der_decode_all connect_response_sch
+    [127; 102; 39; 10; 1; 0; 2; 1; 0; 48; 26; 2; 1; 22; 2; 1; 3; 2; 1; 0; 2; 1; 1; 2; 1; 0; 2; 1; 1; 2; 3; 0; 255; 248; 2; 1; 2; 4; 3; 1; 2; 3]
+    = Some (connect_response [1; 2; 3]) /\
+  der_decode_all SInt [2; 1; 5] = Some (DInt 5) /\
+  der_decode_all SInt [2; 129; 1; 5] = None /\
+  der_decode_all SInt [2; 2; 0; 5] = None /\
+  der_decode_all SBool [1; 1; 1] = None /\
+  der_decode_all (SExplicit Context 5 SInt) [191; 5; 3; 2; 1; 5] = None /\
+  der_decode_all (SExplicit Context 5 SInt) [165; 3; 2; 1; 5] = Some (DExplicit Context 5 (DInt 5)).
+Proof. exact der_inverse_examples. Qed.
+Print Assumptions C18_inv_der_nonvacuous.
+
+(* ---------------------------------------------------------------- the message interpreter *)
+(* For EVERY template whose arrays start empty (tmpl_ok: every template of the crate), every input and
+   both profiles: the message read is writable, its length() is the number of bytes written, and what it
+   writes is the input minus the bytes [read] consumed without keeping them -- [slack], computed from
+   (template, input): the left-over of every sized sub-cursor, and what a failed read of an optional
+   field or of the last array element had consumed.  The bytes are reproduced EXACTLY iff that count is
+   zero ([tight]). *)
+Theorem C18_inv_write_read :
+  forall p t bs m rest a, tmpl_ok t = true -> read p t bs = ROk m rest a ->
+    exists b, write p m = Some b /\ mlength p m = Some (nlen b) /\
+      nlen b + slack p t bs + nlen rest = nlen bs /\
+      (all_bytes bs = true -> (b ++ rest = bs <-> tight p t bs = true)).
+Proof. exact write_read. Qed.
+Print Assumptions C18_inv_write_read.
+
+(* on a tight input read and write are mutually inverse: the message read round-trips, whether or not
+   it lies inside the checker [wf] of the first direction *)
+Theorem C18_inv_read_write_read :
+  forall p t bs m rest a, tmpl_ok t = true -> all_bytes bs = true ->
+    read p t bs = ROk m rest a -> tight p t bs = true ->
+    exists b, write p m = Some b /\ read p t (b ++ rest) = ROk m rest a.
+Proof. exact read_write_read. Qed.
+Print Assumptions C18_inv_read_write_read.
+
+(* what [read] leaves is a suffix of its input, on success and on error *)
+Theorem C18_inv_read_suffix :
+  forall p t bs, match read p t bs with
+                 | ROk _ rest _ | RErr _ rest _ => exists pre, bs = pre ++ rest
+                 | _ => True
+                 end.
+Proof. exact read_suffix. Qed.
+Print Assumptions C18_inv_read_suffix.
+
+(* flat templates (no Option, no Array) whose Size-named fields are read-to-end blocks never drop a byte *)
+Theorem C18_inv_always_tight :
+  forall p t bs m rest a, always_tight t = true -> all_bytes bs = true -> read p t bs = ROk m rest a ->
+    exists b, write p m = Some b /\ mlength p m = Some (nlen b) /\ b ++ rest = bs.
+Proof. exact always_tight_inverse. Qed.
+Print Assumptions C18_inv_always_tight.
+
+(* the layouts the client READS, verbatim: share data header, capability set and the capability bodies,
+   fast-path update, bitmap data and its compression header, deactivate-all, control, font map, error
+   info, X.224 connection confirm, GCC block header / security data, security header, licence preamble /
+   blob / error message, NTLM CHALLENGE, AV pair, message signature *)
+Theorem C18_inv_verbatim_layouts :
+  forall p t bs m rest a, In t verbatim_layouts -> all_bytes bs = true -> read p t bs = ROk m rest a ->
+    exists b, write p m = Some b /\ mlength p m = Some (nlen b) /\ b ++ rest = bs.
+Proof. exact verbatim_layouts_inverse. Qed.
+Print Assumptions C18_inv_verbatim_layouts.
+
+(* the layouts with an optional field or an array (share control header, demand active, GCC server core /
+   network data, fast-path bitmap update, synchronize, colour pointer, virtual-channel capability) *)
+Theorem C18_inv_optional_layouts :
+  forall p t bs m rest a, In t optional_layouts -> all_bytes bs = true -> read p t bs = ROk m rest a ->
+    exists b, write p m = Some b /\ mlength p m = Some (nlen b) /\
+      nlen b + slack p t bs + nlen rest = nlen bs /\ (b ++ rest = bs <-> tight p t bs = true).
+Proof. exact optional_layouts_inverse. Qed.
+Print Assumptions C18_inv_optional_layouts.
+
+(* non-vacuity: tight inputs reproduced and loose inputs not, on the share control header (one stray octet
+   where PDUSource should be), the GCC server core data (a partial optional field) and demand active (a
+   capability window ending inside a set) *)
+Theorem C18_inv_msg_nonvacuous :
+  (rewrites Debug share_control_header_t [8; 0; 23; 0; 234; 3; 170; 187; 204] = Some (true, true) /\
+   rewrites Debug share_control_header_t [6; 0; 23; 0] = Some (true, true) /\
+   rewrites Debug share_control_header_t [6; 0; 23; 0; 234] = Some (false, false)) /\
+  (rewrites Debug LayoutsConnect.server_core_data [4; 0; 8; 0] = Some (true, true) /\
+   rewrites Debug LayoutsConnect.server_core_data [4; 0; 8; 0; 1; 0; 0; 0] = Some (true, true) /\
+   rewrites Debug LayoutsConnect.server_core_data [4; 0; 8; 0; 1; 0; 0; 0; 2; 0; 0; 0; 170] = Some (true, true) /\
+   rewrites Debug LayoutsConnect.server_core_data [4; 0; 8; 0; 1; 0] = Some (false, false) /\
+   rewrites Debug LayoutsConnect.server_core_data [4; 0; 8; 0; 1; 0; 0; 0; 2] = Some (false, false)) /\
+  (rewrites Debug ts_demand_active_pdu
+     [1; 0; 1; 0;  2; 0;  12; 0;  82; 68;  1; 0;  0; 0;  15; 0; 8; 0; 0; 0; 0; 0;  9; 9; 9; 9] = Some (true, true) /\
+   rewrites Debug ts_demand_active_pdu
+     [1; 0; 1; 0;  2; 0;  14; 0;  82; 68;  1; 0;  0; 0;  15; 0; 8; 0; 0; 0; 0; 0;  7; 7;  9; 9; 9; 9] = Some (false, false)).
+Proof. exact (conj share_control_examples (conj server_core_examples demand_active_examples)). Qed.
+Print Assumptions C18_inv_msg_nonvacuous.
+
+(* ---------------------------------------------------------------- GCC *)
+(* read_conference_create_response keeps only the I/O channel id, the channel ids and the three-valued
+   version: the bytes of an arbitrary response cannot come back.  (a) The I/O channel id and every channel
+   id returned are 16-bit values.  (b) The CANONICAL response rebuilt from what was read (reference
+   encoder: core / security / net blocks in the order of MS-RDPBCGR 2.2.1.4, node id 1001, tag 1, result 0,
+   the I/O channel id that was read) is read back to the same server data -- reading is idempotent through
+   the reference encoder.  (c) A response in that reference form is reproduced byte for byte. *)
+Theorem C18_inv_gcc_ids_bounded :
+  forall p bs io ids v, all_bytes bs = true ->
+    gcc_read_conference_create_response p bs = Ok (io, ids, v) -> io < 65536 /\ Forall (fun i => i < 65536) ids.
+Proof. exact gcc_read_ids_bounded. Qed.
+Print Assumptions C18_inv_gcc_ids_bounded.
+
+Theorem C18_inv_gcc_idempotent :
+  forall p bs io ids v, all_bytes bs = true ->
+    gcc_read_conference_create_response p bs = Ok (io, ids, v) -> nlen ids < 16000 ->
+    exists b, gcc_canonical io ids v = Some b /\ gcc_read_conference_create_response p b = Ok (io, ids, v).
+Proof. exact gcc_read_idempotent. Qed.
+Print Assumptions C18_inv_gcc_idempotent.
+
+Theorem C18_inv_gcc_reference_form :
+  forall p bs io ids v io' ids' v',
+    io < 65536 -> Forall (fun i => i < 65536) ids -> nlen ids < 16000 -> gcc_canonical io ids v = Some bs ->
+    gcc_read_conference_create_response p bs = Ok (io', ids', v') -> gcc_canonical io' ids' v' = Some bs.
+Proof. exact gcc_reference_form_reproduced. Qed.
+Print Assumptions C18_inv_gcc_reference_form.
+
+(* non-vacuity: a response with optional core fields and another node id is read, rebuilt canonically
+   (different bytes) and read again to the same server data *)
+Theorem C18_inv_gcc_nonvacuous :
+  let bs := [0; 5; 0; 20; 124; 0; 1; 54; 20; 118; 10; 1; 1; 0; 1; 192; 0; 77; 99; 68; 110; 40;
+             1; 12; 12; 0; 4; 0; 8; 0; 1; 0; 0; 0;
+             2; 12; 12; 0; 0; 0; 0; 0; 0; 0; 0; 0;
+             3; 12; 16; 0; 235; 3; 3; 0; 236; 3; 237; 3; 238; 3; 0; 0] in
+  gcc_read_conference_create_response Debug bs = Ok (1003, [1004; 1005; 1006], RdpVersion5plus) /\
+  match gcc_canonical 1003 [1004; 1005; 1006] RdpVersion5plus with
+  | Some b => b <> bs /\ gcc_read_conference_create_response Debug b = Ok (1003, [1004; 1005; 1006], RdpVersion5plus)
+              /\ gcc_canonical 1003 [1004; 1005; 1006] RdpVersion5plus = Some b
+  | None => False
+  end.
+Proof. exact gcc_idempotent_example. Qed.
+Print Assumptions C18_inv_gcc_nonvacuous.
+
+(* ---------------------------------------------------------------- the checker [wf], extended *)
+(* consecutive absent trailing Options are inside the checker (an absent Option may be followed by fields
+   that write nothing): TS_UD_SC_CORE without its two optional fields round-trips through the generic
+   theorem C18_read_write_total, in a closed reader and only there *)
+Theorem C18_read_write_absent_options :
+  (wf Debug true ex_two_opt_t ex_two_opt_m = true /\ roundtrips Debug ex_two_opt_t ex_two_opt_m [] = true
+   /\ wf Debug false ex_two_opt_t ex_two_opt_m = false) /\
+  (forall p version, version < 4294967296 ->
+     wf p true Gcc.server_core_data (core_msg version None None) = true /\
+     wf p false Gcc.server_core_data (core_msg version None None) = false) /\
+  (forall p version, version < 4294967296 -> block_roundtrip p true Gcc.server_core_data (core_msg version None None)).
+Proof. exact (conj ex_opt_two_absent (conj server_core_data_none_wf server_core_data_roundtrip_none)). Qed.
+Print Assumptions C18_read_write_absent_options.
